@@ -175,3 +175,43 @@ def call_abstract(eng, f, args):
     if ver.ksort != T.Key or ver.vsort != T.Real:
         raise Unsupported("value() of a dict that is not a term dict")
     return SV(VALUE(f.fid, x.e, ver.dom, ver.val), "real")
+
+
+# ------------------------------------------------------------------ recorded constraints (is_solution_valid)
+# A recorded constraint is an abstract object id with CVAL(id) = its value at the ghost assignment (the `solution`
+# argument of is_solution_valid is that assignment); a list of constraints is abstracted to the multiset of its
+# elements.  any(pred(v.value(solution)) for v in lst) is "some element satisfies pred".
+CVAL = z3.Function("constraint_value", T.Int, T.Real)
+
+
+class CList:
+    """an abstract python list of recorded constraint objects (multiset: id -> multiplicity)"""
+
+    def __init__(self, cnt):
+        self.cnt = cnt
+
+
+def new_clist(eng, hint):
+    eng.nfresh += 1
+    return eng.alloc(CList(z3.Const("%s_cnt!%d" % (hint, eng.nfresh), z3.ArraySort(T.Int, T.Int))))
+
+
+def any_over_clist(eng, lst, n, fr):
+    """any(<elt> for v in lst): exists an element for which <elt> is true"""
+    from .interp import Frame
+    import ast
+    g = n.generators[0]
+    if g.ifs or not isinstance(g.target, ast.Name):
+        raise Unsupported("any over the recorded constraints: filter / target shape")
+    eng.nfresh += 1
+    eng.quantified = True
+    c = z3.Int("cq!%d" % eng.nfresh)
+    sub = Frame(fr.closure, dict(fr.locals), fr.self_obj, fr.defining_cls)
+    sub.locals[g.target.id] = SV(c, "cobj")
+    eng.spec += 1
+    try:
+        phi = eng.tobool(eng.eval(n.elt, sub))
+    finally:
+        eng.spec -= 1
+    phi = z3.BoolVal(phi) if isinstance(phi, bool) else phi
+    return SV(z3.Exists([c], z3.And(z3.Select(lst.cnt, c) > 0, phi)), "bool")
